@@ -44,6 +44,12 @@ def check(ctx):
     st, var, handle, region, out = emit.templates_of(ctx, f, rec, n, extras["tags_attr"], "R20.1")
     if not out:
         raise AnalysisError("R20.1", f.where(st), "no path emits a record")
+    var_mode = handle is None
+    if handle is None and var is not None:
+        # the record is assembled in a variable and written in one piece: the handle is the receiver of that write
+        sinks = [c for c in walk_own(f.node) if isinstance(c, ast.Call) and isinstance(c.func, ast.Attribute) and c.func.attr == "write" and c.args and var in {x.id for x in ast.walk(c.args[0]) if isinstance(x, ast.Name)}]
+        if len({norm(c.func.value) for c in sinks}) == 1:
+            handle = norm(sinks[0].func.value)
     pf, loop = tag_loop(ctx, "R20.2")
     key_colon = relang.all_end_with(key_group_items(tag_regex_info(pf, loop, "R20.2")), ":")
     table = phase_table(ctx, f)
@@ -55,7 +61,7 @@ def check(ctx):
     for sig, (p, parts) in seen.items():
         check_template(ctx, f, rec, st, p, parts, schema, extras, key_colon, table)
     ctx.run(r20_4_guard, f, rec, st, out, table)
-    ctx.run(r20_5, f, rec, st, region, out, handle)
+    ctx.run(r20_5, f, rec, st, region, out, handle, var_mode)
     ctx.run(r20_6, f, handle)
     ctx.run(r20_7, f, table)
     ctx.run(r20_8, f)
@@ -379,7 +385,7 @@ def split_test(t, pol):
     return [(t, pol)]
 
 
-def r20_5(ctx, f, rec, st, region, out, handle):
+def r20_5(ctx, f, rec, st, region, out, handle, var_mode=False):
     # every path through one record writes the 12-column template exactly once
     paths = enum_paths(region, rule="R20.5", where=f.where(st))
     bad = None
@@ -398,6 +404,8 @@ def r20_5(ctx, f, rec, st, region, out, handle):
     trail = {s.endswith("\\n") for s in sigs}
     nl_inside = any(s.strip("\\n").count("\\n") for s in [x.replace("\\n", "", 1) if x.startswith("\\n") else x for x in sigs])
     ok = (trail == {True} and lead == {False}) or (trail == {False} and lead == {True, False})
+    if not ok and var_mode and handle is not None and len([c for c in walk_own(f.node) if isinstance(c, ast.Call) and isinstance(c.func, ast.Attribute) and c.func.attr == "write" and norm(c.func.value) == handle]) > 1:
+        raise AnalysisError("R20.5", f.where(st), "the record is assembled in a variable while the handle also receives other writes (the separating newline): the separator discipline is not read from that mix")
     ctx.check(ok, "R20.5", f.where(st), "records are separated by exactly one newline (trailing newline per record, or a leading one for every record but the first)", key_of(f, f"separator:{sorted(lead)}:{sorted(trail)}"), leading=sorted(lead), trailing=sorted(trail))
     if lead == {True, False}:
         # the leading newline must be guarded by 'not the first record'
